@@ -8,12 +8,10 @@ import (
 	"os"
 	"os/exec"
 	"path/filepath"
-	"regexp"
 	"sort"
 	"strings"
 	"sync"
 	"sync/atomic"
-	"syscall"
 	"time"
 
 	"github.com/bytemare/secp256k1/zz_verif/mon"
@@ -307,11 +305,10 @@ func c17Values(s string) string {
 	return strings.Join(out, "\n")
 }
 
-var c17GoroutineHeader = regexp.MustCompile(`(?m)^goroutine \d+ (?:gp=\S+ m=\S+ (?:mp=\S+ )?)?\[([^\],]+)`)
-
-// c17RunOnce executes the built program once. A program of this kind finishes in milliseconds; if it is still there
-// after a minute it is sent SIGQUIT and the verdict is read off the goroutine dump: when no goroutine is running or
-// runnable the program is deadlocked (it has no timers, I/O or signals to wake it), whatever the clock says.
+// c17RunOnce executes the built program once. A program of this kind finishes in milliseconds. Whether one that does not
+// finish is hung or merely slow is decided on its state, not on the clock (mon/watch.go): once it has been completely idle
+// for 15 s it is sent SIGQUIT and judged on its goroutine dump — all goroutines blocked, none runnable, the module on a
+// blocked stack: deadlock; anything else: inconclusive.
 func c17RunOnce(dir string, v c17Variant) c17Result {
 	var r c17Result
 
@@ -319,9 +316,18 @@ func c17RunOnce(dir string, v c17Variant) c17Result {
 	run.Dir = dir
 	run.Env = append(append(os.Environ(), "GOTRACEBACK=all"), v.RunEnv...)
 
-	var so, se bytes.Buffer
+	var so bytes.Buffer
 
-	run.Stdout, run.Stderr = &so, &se
+	errPath := filepath.Join(dir, "stderr.log")
+
+	ef, err := os.Create(errPath)
+	if err != nil {
+		r.buildErr = "cannot create log: " + err.Error()
+		return r
+	}
+	defer ef.Close()
+
+	run.Stdout, run.Stderr = &so, ef
 
 	if err := run.Start(); err != nil {
 		if v.MayNotRun {
@@ -333,50 +339,18 @@ func c17RunOnce(dir string, v c17Variant) c17Result {
 		return r
 	}
 
-	done := make(chan error, 1)
-	go func() { done <- run.Wait() }()
+	werr, st := mon.WaitWatched(run, errPath, 15*time.Second, 5*time.Minute)
 
-	select {
-	case err := <-done:
-		if err != nil {
-			r.exit = err.Error()
-		}
-	case <-time.After(60 * time.Second):
-		_ = run.Process.Signal(syscall.SIGQUIT)
-
-		select {
-		case <-done:
-		case <-time.After(30 * time.Second):
-			_ = run.Process.Kill()
-			<-done
-		}
-
+	switch {
+	case st.Stalled:
 		r.timed = true
-
-		states := map[string]int{}
-		for _, m := range c17GoroutineHeader.FindAllStringSubmatch(se.String(), -1) {
-			states[m[1]]++
-		}
-
-		blocked, live := 0, 0
-
-		for st, n := range states {
-			switch st {
-			case "chan receive", "chan send", "select", "select (no cases)", "semacquire", "sync.Mutex.Lock", "sync.RWMutex.Lock", "sync.RWMutex.RLock", "sync.Cond.Wait", "sync.WaitGroup.Wait", "chan receive (nil chan)", "chan send (nil chan)":
-				blocked += n
-			case "GC worker (idle)", "GC sweep wait", "GC scavenge wait", "finalizer wait", "force gc (idle)", "cleanup wait", "syscall", "GC assist wait", "runfinq":
-				// runtime housekeeping (the signal goroutine sits in a syscall)
-			default:
-				live += n
-			}
-		}
-
-		if blocked > 0 && live == 0 && strings.Contains(se.String(), "github.com/bytemare/secp256k1.") {
-			r.deadlock = fmt.Sprintf("%d goroutines blocked, none runnable; states %v", blocked, states)
-		}
+		r.deadlock = st.Deadlock
+	case werr != nil:
+		r.exit = werr.Error()
 	}
 
-	r.stdout, r.stderr = so.String(), se.String()
+	se, _ := os.ReadFile(errPath)
+	r.stdout, r.stderr = so.String(), string(se)
 
 	return r
 }
